@@ -48,6 +48,11 @@ def rich_object(ctx, fmt, reason=None):
         occ = "aminusb"
     elif reason == "generalized-contraction":
         shells = [(0, [0, 0], ["c", "c"], 2), (1, [1], ["c"], 1)]
+    elif reason == "ps-ordered-contraction":
+        # two contractions ordered p, s: not an SP shell as FCHK stores it (s first), so it needs the conversion like any other
+        shells = [(0, [1, 0], ["c", "c"], 2), (1, [0], ["c"], 1)]
+    elif reason == "three-contractions":
+        shells = [(0, [0, 1, 1], ["c", "c", "c"], 2), (1, [0], ["c"], 1)]
     elif reason == "pure-functions":
         shells = [(0, [0], ["c"], 2), (1, [2], ["p"], 1)]
     elif reason == "non-aufbau":
@@ -154,14 +159,14 @@ def h_required(ctx, fmt="xyz", many=False):
 
 
 REASONS = {
-    "fchk": ["generalized-orbitals", "generalized-contraction", "non-aufbau"],
-    "molden": ["generalized-orbitals", "occs_aminusb", "generalized-contraction"],
-    "molekel": ["generalized-orbitals", "occs_aminusb", "generalized-contraction"],
-    "wfn": ["generalized-orbitals", "occs_aminusb", "generalized-contraction", "pure-functions"],
-    "wfx": ["generalized-orbitals", "occs_aminusb", "generalized-contraction", "pure-functions"],
+    "fchk": ["generalized-orbitals", "generalized-contraction", "ps-ordered-contraction", "three-contractions", "non-aufbau"],
+    "molden": ["generalized-orbitals", "occs_aminusb", "generalized-contraction", "ps-ordered-contraction", "three-contractions"],
+    "molekel": ["generalized-orbitals", "occs_aminusb", "generalized-contraction", "ps-ordered-contraction", "three-contractions"],
+    "wfn": ["generalized-orbitals", "occs_aminusb", "generalized-contraction", "ps-ordered-contraction", "pure-functions"],
+    "wfx": ["generalized-orbitals", "occs_aminusb", "generalized-contraction", "ps-ordered-contraction", "pure-functions"],
     "json_qcschema": ["missing-schema-name", "unsupported-schema"],
 }
-CONVERTIBLE = {"occs_aminusb", "generalized-contraction"}
+CONVERTIBLE = {"occs_aminusb", "generalized-contraction", "ps-ordered-contraction", "three-contractions"}
 
 
 def h_rejection(ctx, fmt="wfn"):
